@@ -16,7 +16,7 @@ Lemma nested_prop : forall body, body_prop body ->
   prop_ok o = true /\ exists e l x, o = OC e l x (cls_of r).
 Proof.
   intros body HB h s r o h' s' H. unfold nested0 in H.
-  destruct (c_nonest C).
+  destruct (c_nonest C || s_nonest s).
   - destruct (body h s) as [[[r0 l0] h0] s0] eqn:Eb. apply HB in Eb. inversion H; subst.
     split; [|eexists; eexists; eexists; reflexivity].
     pose proof (prop_OC_same _ r Eb) as K. cbn [forallb] in K. rewrite andb_true_r in K. exact K.
@@ -33,19 +33,19 @@ Proof.
       pose proof (prop_OC_same _ (RPan p) Eb) as K. cbn [forallb] in K. rewrite andb_true_r in K. exact K.
 Qed.
 
-Lemma nested_cx_prop : forall cx body, body_prop body ->
-  forall h s r o h' s', nested E C fault cx body h s = (r, o, h', s') ->
-  prop_ok o = true /\ exists e l x, o = OC e l x (cls_of r).
+Lemma nested_cx_prop : forall cx nn body, body_prop body ->
+  forall h s r o h' s', nested E C fault cx nn body h s = (r, o, h', s') ->
+  prop_ok o = true /\ exists e l x, (if nn then o = ONN (OC e l x (cls_of r)) else o = OC e l x (cls_of r)).
 Proof.
-  intros cx body HB h s r o h' s' H. unfold nested in H. destruct cx.
-  - destruct (nested0 E C fault body h (set_dead s false)) as [[[r0 o0] h0] s0] eqn:En.
-    apply (nested_prop _ HB) in En. inversion H; subst. exact En.
-  - apply (nested_prop _ HB) in H. exact H.
+  intros cx nn body HB h s r o h' s' H. unfold nested in H.
+  destruct (nested0 E C fault body h _) as [[[r0 o0] h0] s0] eqn:En.
+  apply (nested_prop _ HB) in En. destruct En as [P [e [l [x Eo]]]]. inversion H; subst.
+  destruct nn; (split; [exact P | exists e, l, x; reflexivity]).
 Qed.
 
 Lemma run_body_prop : forall p, body_prop (run_body E C fault p).
 Proof.
-  induction p as [o | m chk k IHk | chk k IHk | b IHb chk rcv cx k IHk | n k IHk | n k IHk | k IHk];
+  induction p as [o | m chk k IHk | chk k IHk | b IHb chk rcv cx nn k IHk | n k IHk | n k IHk | k IHk];
     intros h s r l h' s' H; cbn [run_body] in H; [| | | | | |apply IHk in H; exact H].
   - destruct o; inversion H; subst; reflexivity.
   - destruct (h_stmt fault (Some m) h s) as [[e n0] s1].
@@ -58,8 +58,8 @@ Proof.
     + inversion H; subst. reflexivity.
     + destruct (run_body E C fault k h s1) as [[[r0 l0] h0] s0] eqn:Ek. apply IHk in Ek. inversion H; subst. exact Ek.
     + destruct (run_body E C fault k h s1) as [[[r0 l0] h0] s0] eqn:Ek. apply IHk in Ek. inversion H; subst. exact Ek.
-  - destruct (nested E C fault cx (run_body E C fault b) h s) as [[[r0 o0] h1] s1] eqn:En.
-    apply (nested_cx_prop _ _ IHb) in En. destruct En as [En _].
+  - destruct (nested E C fault cx nn (run_body E C fault b) h s) as [[[r0 o0] h1] s1] eqn:En.
+    apply (nested_cx_prop _ _ _ IHb) in En. destruct En as [En _].
     destruct r0 as [|e0|p0].
     + destruct (run_body E C fault k h1 s1) as [[[r1 l1] h2] s2] eqn:Ek. apply IHk in Ek.
       inversion H; subst. cbn [forallb]. rewrite En, Ek. reflexivity.
@@ -130,19 +130,19 @@ Qed.
    was when the block started, the program's save points are as they were, and the enclosing
    handle is returned exactly as it was (the enclosing transaction stays usable) *)
 Theorem nested_isolated : forall cx b h s r o h1 s1 t stk,
-  c_nonest C = false -> scoped [] b = true -> no_cancel b = true ->
-  nested E C fault cx (run_body E C fault b) h s = (r, o, h1, s1) -> s_dead s = false ->
+  c_nonest C = false -> scoped [] b = true -> plain_prog b = true ->
+  nested E C fault cx false (run_body E C fault b) h s = (r, o, h1, s1) -> s_dead s = false -> s_nonest s = false ->
   s_tx s = Some (mkTx t stk) -> gen_ok (s_gen s) stk ->
   x_rb (s_fl s1) = false -> x_drop (s_fl s1) = false ->
   h1 = h /\
   (is_ok r = false -> exists stk', s_tx s1 = Some (mkTx t stk') /\ fu stk' = fu stk).
 Proof.
-  intros cx b h s r o h1 s1 t stk Hn Hsc Hnc H Hdead Htx Hg Hrb Hdr.
+  intros cx b h s r o h1 s1 t stk Hn Hsc Hnc H Hdead Hnn Htx Hg Hrb Hdr.
   assert (HBS : body_spec C (run_body E C fault b)).
-  { intros hc sc rc lc hc' sc' tc basec Eb Hd0 Htc Hgc Hrc Hdc.
-    apply (body_inv E savepoint_pushes rollback_to_exact C savepoints fault b [] hc sc rc lc hc' sc' tc [] basec Eb Hd0 Hnc Htc (sub_nil _) Hsc Hgc Hrc Hdc). }
+  { intros hc sc rc lc hc' sc' tc basec Eb Hd0 Hn0 Htc Hgc Hrc Hdc.
+    apply (body_inv E savepoint_pushes rollback_to_exact C savepoints fault b [] hc sc rc lc hc' sc' tc [] basec Eb Hd0 Hn0 Hnc Htc (sub_nil _) Hsc Hgc Hrc Hdc). }
   destruct (nested_cx_step E savepoint_pushes rollback_to_exact C savepoints fault cx _ HBS (run_body_flags E C fault b)
-              h s r o h1 s1 t [] stk H Hdead Htx Hg Hrb Hdr)
+              h s r o h1 s1 t [] stk H Hdead Hnn Htx Hg Hrb Hdr)
     as [Eh [[t1 [local1 [l0 [Eo' [St _]]]]] | [e [_ [Eo' St]]]]]; (split; [exact Eh|]); intro Hr.
   - destruct St as (A1 & A2 & _).
     rewrite Eo', spec_OC, Hn in A2. cbn [negb app] in A2.
@@ -153,10 +153,22 @@ Proof.
   - destruct St as (A1 & _). exists ([] ++ stk). split; [exact A1 | reflexivity].
 Qed.
 
+(* a nested block whose receiver was derived with Session{DisableNestedTransaction: true} is the
+   block function and nothing else: no SAVEPOINT, no ROLLBACK TO, whatever the function returns;
+   the enclosing handle's own setting is in force again afterwards *)
+Theorem nested_disabled_plain : forall body h s r l h0 s0,
+  body h (set_nonest s true) = (r, l, h0, s0) ->
+  nested E C fault false true body h s
+  = (r, ONN (OC true l (cls_of r) (cls_of r)), h, set_nonest s0 (s_nonest s)).
+Proof.
+  intros body h s r l h0 s0 Eb. unfold nested, nested0.
+  cbn [set_nonest s_nonest]. rewrite orb_true_r, Eb. reflexivity.
+Qed.
+
 (* the property as the checker evaluates it, on the model's own output *)
 Theorem spec_holds_model : forall manual p extra o x s,
   run_top E C fault manual p extra (init_st []) = (o, x, s) ->
-  scoped [] p = true -> no_cancel p = true ->
+  scoped [] p = true -> plain_prog p = true ->
   x_rb (s_fl s) = false -> x_drop (s_fl s) = false ->
   spec_holds (mk_case manual p extra [] C None o x [] (s_db s)
                 (fst (pool E (rev (s_txlog s)))) (snd (pool E (rev (s_txlog s)))) (rev (s_ops s))) = true.
@@ -193,9 +205,9 @@ Qed.
 Definition cfg_default := mk_cfg false false false true false false false.
 Definition cfg_stock := mk_cfg false false false false false false false.
 (* tx.Create(1); tx.Transaction(create 2) with its error ignored; tx.Create(3); return nil *)
-Definition sticky_prog := Write 1 true (Child (Write 2 true (Done RetNil)) false false false (Write 3 false (Done RetNil))).
+Definition sticky_prog := Write 1 true (Child (Write 2 true (Done RetNil)) false false false false (Write 3 false (Done RetNil))).
 (* the same with a nested block that fails *)
-Definition stock_prog := Write 1 true (Child (Write 2 true (Done (RetErr 1))) false false false (Write 3 false (Done RetNil))).
+Definition stock_prog := Write 1 true (Child (Write 2 true (Done (RetErr 1))) false false false false (Write 3 false (Done RetNil))).
 
 (* the input of the former finding (fixed in /repo by 1c49b86): a fault on the SAVEPOINT of a
    nested block whose error the enclosing function ignores. The nested call reports the fault, the
@@ -218,7 +230,7 @@ Proof. exists cfg_stock, stock_prog, 2%nat. vm_compute. repeat split. Qed.
    statement, meeting every hypothesis of the theorems, with a non-trivial durable set *)
 Definition demo_prog :=
   Write 1 true (Save 7 (Write 2 true (Child
-     (Write 3 true (Child (Write 4 true (Done (RetErr 5))) true false false (Done RetNil))) false false false
+     (Write 3 true (Child (Write 4 true (Done (RetErr 5))) true false false false (Done RetNil))) false false false false
      (RbTo 7 (Write 6 true (Write 8 false (Done RetNil))))))).
 Lemma demo_instance :
   scoped [] demo_prog = true /\ let '(o, x, s) := run_top ref_env cfg_default (fault_at (Some 12%nat)) false demo_prog [] (init_st []) in
@@ -230,9 +242,9 @@ Proof. vm_compute. repeat split. Qed.
    NOT undone — its deferred ROLLBACK TO SAVEPOINT is issued under the cancelled ctx and never
    reaches the database; the enclosing block commits the nested block's write *)
 Definition cancel_prog :=
-  Write 1 true (Child (Write 2 true (Cancel (Done (RetErr 1)))) false false true (Write 3 false (Done RetNil))).
+  Write 1 true (Child (Write 2 true (Cancel (Done (RetErr 1)))) false false true false (Write 3 false (Done RetNil))).
 Lemma cancel_witness :
-  scoped [] cancel_prog = true /\ no_cancel cancel_prog = false /\
+  scoped [] cancel_prog = true /\ plain_prog cancel_prog = false /\
   let '(o, x, s) := run_top ref_env cfg_default (fault_at None) false cancel_prog [] (init_st []) in
   x_rb (s_fl s) = false /\ x_drop (s_fl s) = false /\
   s_db s = [1; 2; 3] /\ spec_final true o (rev (s_ops s)) [] = [1; 3].
